@@ -176,6 +176,21 @@ def item_try():
     raise Refuse("visit_Try no longer has a modelled shape:\n" + txt)
 
 
+def item_ctx_fresh():
+    """does a new `global` context start empty (Python's `global` is per function)?"""
+    fn = ast.parse(ast.unparse(_cls_method("_new_global_context"))).body[0]
+    fn.body = [s_ for s_ in fn.body if not (isinstance(s_, ast.Expr) and isinstance(s_.value, ast.Constant))]
+    fn.decorator_list = []
+    txt = ast.unparse(ast.fix_missing_locations(fn))
+    shape = ("def _new_global_context(self):\n    self._global_ctx.append(ARG)\n    try:\n        yield\n"
+             "    finally:\n        self._global_ctx.pop()")
+    for arg, val in (("set()", "true"), ("set(self._global_context)", "false"), ("self._global_context.copy()", "false"),
+                     ("set(self._global_ctx[-1])", "false")):
+        if txt == shape.replace("ARG", arg):
+            return f"Definition opt_ctx_fresh : bool := {val}.\n"
+    raise Refuse("_new_global_context no longer has a modelled shape:\n" + txt)
+
+
 def _only(fn, name):
     def f():
         for line in fn().splitlines():
@@ -199,4 +214,5 @@ ITEMS = [
     ("opt_has_getitem", _only(item_special, "opt_has_getitem")),
     ("opt_has_delitem", _only(item_special, "opt_has_delitem")),
     ("opt_try_keeps_finally", item_try),
+    ("opt_ctx_fresh", item_ctx_fresh),
 ]
